@@ -37,7 +37,9 @@
 EXTENDS TLC, Json, Sequences, FiniteSets, Naturals
 
 CONSTANTS MaxGiven,     \* options given on top of the base command line (SCHEMA --url URL)
-          AllInvalid    \* TRUE: every invalid class takes part in combinations; FALSE: only one representative per option
+          Combo         \* value classes that take part in combinations of two and more options: "all" = every class,
+                        \* "rep" = valid and undecided ones plus one invalid representative per option, "valid" = valid ones only
+                        \* (single options always range over every class)
 
 ---------------------------------------------------------------------------
 (* value classes: n = name, k = V(alid) | I(nvalid) | U(ndecided by the documentation), eff = effective value of the option's   *)
@@ -157,6 +159,7 @@ Kind(c, o) == KindTab[o][c[o]]
 Given(c, o) == c[o] # "absent"
 HasInvalid == {o \in Opts : \E k \in Idx(o) : Table[o][k].k = "I"}
 InvalidRep == [o \in HasInvalid |-> Table[o][CHOOSE k \in Idx(o) : Table[o][k].k = "I" /\ \A j \in 1..(k - 1) : Table[o][j].k # "I"].n]
+ASSUME Combo \in {"all", "rep", "valid"}
 ASSUME \A o \in Opts : Cardinality(Names[o]) = Len(Table[o]) /\ "absent" \notin Names[o] /\ \E k \in Idx(o) : Table[o][k].k = "V"
 
 ---------------------------------------------------------------------------
@@ -226,9 +229,10 @@ IsBase(d, c) == d = "file" /\ c["url"] = "cli"
 Budget(d, c) == IF IsBase(d, c) THEN MaxGiven ELSE IF MaxGiven = 0 THEN 0 ELSE 1
 Allowed(d, c) ==
   /\ NGiven(c) <= Budget(d, c)
-  /\ \/ AllInvalid
+  /\ \/ Combo = "all"
      \/ Cardinality({o \in Opts : Given(c, o)}) <= (IF IsBase(d, c) THEN 2 ELSE 1)
-     \/ \A o \in HasInvalid : Kind(c, o) = "I" => c[o] = InvalidRep[o]
+     \/ Combo = "rep" /\ \A o \in HasInvalid : Kind(c, o) = "I" => c[o] = InvalidRep[o]
+     \/ Combo = "valid" /\ \A o \in Opts : Kind(c, o) \in {"A", "V"}
 Init == /\ door \in {"file", "http"}
         /\ \E u \in (IF door = "file" THEN {"cli", "absent"} ELSE {"absent"}) : cmd = [o \in Opts |-> IF o = "url" THEN u ELSE "absent"]
 Give(o, n) == /\ ~Given(cmd, o)
